@@ -312,6 +312,7 @@ func concHistory(r *ev.Run, id string, i int, hits *[2]atomic.Int64) bool {
 	if g.P(1, 2) {
 		stopAt = g.Intn(per)
 	}
+	multiStop := g.Bool()
 	_, _ = b.Write(nil) // initialise so that a ticker exists
 	var wg sync.WaitGroup
 	var done atomic.Bool
@@ -333,6 +334,9 @@ func concHistory(r *ev.Run, id string, i int, hits *[2]atomic.Int64) bool {
 				case w == 0 && k == stopAt:
 					_ = b.Stop()
 					stopReturned.Store(true)
+					_ = b.Stop()
+				case w == 1 && stopAt >= 0 && multiStop && (k == stopAt || k == stopAt+1):
+					// a second goroutine stops at about the same moment (with ticks in flight)
 					_ = b.Stop()
 				case x>>60 < 3:
 					acked := map[string]bool{}
